@@ -23,8 +23,10 @@ VARIABLES conf,      \* [startup, cleanup : sequences (one per handler) of outco
           apis,      \* ghost: API requests issued so far
           sfail,     \* ghost: the startup activity failed
           cran,      \* ghost: a cleanup handler has been invoked
-          lateD      \* ghost: a daemon was spawned while the orchestrator was already being cancelled (family F29)
-vars == <<conf, sc, hs, started, ready, rt, watch, busy, rec, daemons, trigger, runner, apis, sfail, cran, lateD>>
+          lateD,     \* ghost: a daemon was spawned while the orchestrator was already being cancelled (family F29)
+          orphans    \* ghost: live daemons whose object has vanished -- its memory is forgotten with the DELETED event, the daemon
+                     \* killer iterates over the memories and cannot reach them anymore (family F5)
+vars == <<conf, sc, hs, started, ready, rt, watch, busy, rec, daemons, trigger, runner, apis, sfail, cran, lateD, orphans>>
 
 Roots == {"killer", "resobs", "nsobs", "orch", "poster"}
 Ended(t) == rt[t] \in {"done", "failed"}
@@ -34,7 +36,7 @@ Fresh(scripts) == [h \in 1..Len(scripts) |-> [n |-> 0, st |-> "pending"]]
 Init0(c) ==
   /\ conf = c /\ sc = "startup" /\ hs = Fresh(c.startup) /\ started = FALSE /\ ready = FALSE
   /\ rt = [t \in Roots |-> "gated"] /\ watch = 0 /\ busy = 0 /\ rec = FALSE /\ daemons = 0
-  /\ trigger = "none" /\ runner = "wait" /\ apis = 0 /\ sfail = FALSE /\ cran = FALSE /\ lateD = FALSE
+  /\ trigger = "none" /\ runner = "wait" /\ apis = 0 /\ sfail = FALSE /\ cran = FALSE /\ lateD = FALSE /\ orphans = 0
 
 \* ---- the startup/cleanup task -------------------------------------------------------------------
 \* (activities.run_activity: every pending handler is invoked in rounds until none is pending; a permanently failed one is not
@@ -46,106 +48,112 @@ AnyFailed == \E h \in DOMAIN hs : hs[h].st = "failed"
 StartupStep(h, out) ==
   /\ sc = "startup" /\ h \in DOMAIN hs /\ hs[h].st = "pending" /\ out = Script(conf.startup[h], hs[h].n)
   /\ hs' = [hs EXCEPT ![h] = [n |-> @.n + 1, st |-> After(out)]]
-  /\ UNCHANGED <<conf, sc, started, ready, rt, watch, busy, rec, daemons, trigger, runner, apis, sfail, cran, lateD>>
+  /\ UNCHANGED <<conf, sc, started, ready, rt, watch, busy, rec, daemons, trigger, runner, apis, sfail, cran, lateD, orphans>>
 StartupEnds ==
   /\ sc = "startup" /\ AllDone /\ runner = "wait"
   /\ IF AnyFailed THEN sc' = "failed" /\ sfail' = TRUE /\ UNCHANGED <<started, ready>>        \* no cleanup after a failed startup
                   ELSE sc' = "sleep" /\ started' = TRUE /\ ready' = TRUE /\ sfail' = sfail
-  /\ UNCHANGED <<conf, hs, rt, watch, busy, rec, daemons, trigger, runner, apis, cran, lateD>>
+  /\ UNCHANGED <<conf, hs, rt, watch, busy, rec, daemons, trigger, runner, apis, cran, lateD, orphans>>
 \* cancelled out of its sleep: wait for all the other root tasks, then clean up
 ScWaitsRoots ==
   /\ sc = "sleep" /\ runner = "stopping" /\ sc' = "waitroots"
-  /\ UNCHANGED <<conf, hs, started, ready, rt, watch, busy, rec, daemons, trigger, runner, apis, sfail, cran, lateD>>
+  /\ UNCHANGED <<conf, hs, started, ready, rt, watch, busy, rec, daemons, trigger, runner, apis, sfail, cran, lateD, orphans>>
 ScBeginsCleanup ==
   /\ sc = "waitroots" /\ \A t \in Roots : Ended(t) /\ sc' = "cleanup" /\ hs' = Fresh(conf.cleanup)
-  /\ UNCHANGED <<conf, started, ready, rt, watch, busy, rec, daemons, trigger, runner, apis, sfail, cran, lateD>>
+  /\ UNCHANGED <<conf, started, ready, rt, watch, busy, rec, daemons, trigger, runner, apis, sfail, cran, lateD, orphans>>
 CleanupStep(h, out) ==
   /\ sc = "cleanup" /\ h \in DOMAIN hs /\ hs[h].st = "pending" /\ out = Script(conf.cleanup[h], hs[h].n)
   /\ hs' = [hs EXCEPT ![h] = [n |-> @.n + 1, st |-> After(out)]] /\ cran' = TRUE
-  /\ UNCHANGED <<conf, sc, started, ready, rt, watch, busy, rec, daemons, trigger, runner, apis, sfail, lateD>>
+  /\ UNCHANGED <<conf, sc, started, ready, rt, watch, busy, rec, daemons, trigger, runner, apis, sfail, lateD, orphans>>
 CleanupEnds ==
   /\ sc = "cleanup" /\ AllDone /\ sc' = (IF AnyFailed THEN "failed" ELSE "ok")
-  /\ UNCHANGED <<conf, hs, started, ready, rt, watch, busy, rec, daemons, trigger, runner, apis, sfail, cran, lateD>>
+  /\ UNCHANGED <<conf, hs, started, ready, rt, watch, busy, rec, daemons, trigger, runner, apis, sfail, cran, lateD, orphans>>
 \* cancelled while the startup handlers are still running: partial startup, no cleanup
 ScCancelledInStartup ==
   /\ sc = "startup" /\ runner = "stopping" /\ sc' = "cancelled"
-  /\ UNCHANGED <<conf, hs, started, ready, rt, watch, busy, rec, daemons, trigger, runner, apis, sfail, cran, lateD>>
+  /\ UNCHANGED <<conf, hs, started, ready, rt, watch, busy, rec, daemons, trigger, runner, apis, sfail, cran, lateD, orphans>>
 
 \* ---- root tasks and their children ---------------------------------------------------------------
 \* (all the guarded tasks wait for the same flag and are resumed by the same set(): they enter together)
 GatesOpen ==
   /\ started /\ runner = "wait" /\ \E t \in Roots : rt[t] = "gated"
   /\ rt' = [t \in Roots |-> IF rt[t] = "gated" THEN "run" ELSE rt[t]]
-  /\ UNCHANGED <<conf, sc, hs, started, ready, watch, busy, rec, daemons, trigger, runner, apis, sfail, cran, lateD>>
+  /\ UNCHANGED <<conf, sc, hs, started, ready, watch, busy, rec, daemons, trigger, runner, apis, sfail, cran, lateD, orphans>>
 Api(t) ==
   /\ rt[t] \in {"run", "cancelling"} /\ apis' = apis + 1
-  /\ UNCHANGED <<conf, sc, hs, started, ready, rt, watch, busy, rec, daemons, trigger, runner, sfail, cran, lateD>>
+  /\ UNCHANGED <<conf, sc, hs, started, ready, rt, watch, busy, rec, daemons, trigger, runner, sfail, cran, lateD, orphans>>
 WatchOpens == /\ rt["orch"] = "run" /\ watch < MaxKids /\ watch' = watch + 1 /\ apis' = apis + 1
-              /\ UNCHANGED <<conf, sc, hs, started, ready, rt, busy, rec, daemons, trigger, runner, sfail, cran, lateD>>
+              /\ UNCHANGED <<conf, sc, hs, started, ready, rt, busy, rec, daemons, trigger, runner, sfail, cran, lateD, orphans>>
 Announce ==   /\ rt["orch"] = "run" /\ conf.peering /\ ~rec /\ rec' = TRUE /\ apis' = apis + 1
-              /\ UNCHANGED <<conf, sc, hs, started, ready, rt, watch, busy, daemons, trigger, runner, sfail, cran, lateD>>
+              /\ UNCHANGED <<conf, sc, hs, started, ready, rt, watch, busy, daemons, trigger, runner, sfail, cran, lateD, orphans>>
 DaemonStarts == /\ rt["orch"] = "run" /\ daemons < MaxKids /\ daemons' = daemons + 1
-                /\ UNCHANGED <<conf, sc, hs, started, ready, rt, watch, busy, rec, trigger, runner, apis, sfail, cran, lateD>>
+                /\ UNCHANGED <<conf, sc, hs, started, ready, rt, watch, busy, rec, trigger, runner, apis, sfail, cran, lateD, orphans>>
 \* (while the orchestrator is being cancelled the workers still drain what was queued: only the trace specification uses `late`)
 HandlerStartsIn(late) == /\ rt["orch"] \in (IF late THEN {"run", "cancelling"} ELSE {"run"}) /\ busy < MaxKids /\ busy' = busy + 1
-                 /\ UNCHANGED <<conf, sc, hs, started, ready, rt, watch, rec, daemons, trigger, runner, apis, sfail, cran, lateD>>
+                 /\ UNCHANGED <<conf, sc, hs, started, ready, rt, watch, rec, daemons, trigger, runner, apis, sfail, cran, lateD, orphans>>
 \* what the code does (F29): a worker that is still draining its queue while the operator shuts down processes the object once
 \* more and spawns its daemons again, after the daemon killer's final pass; such a daemon lives through the cleanup handlers
 \* and is only cancelled with the hung tasks at the very end
 DaemonStartsLate == /\ rt["orch"] = "cancelling" /\ daemons < MaxKids /\ daemons' = daemons + 1 /\ lateD' = TRUE
-                    /\ UNCHANGED <<conf, sc, hs, started, ready, rt, watch, busy, rec, trigger, runner, apis, sfail, cran>>
+                    /\ UNCHANGED <<conf, sc, hs, started, ready, rt, watch, busy, rec, trigger, runner, apis, sfail, cran, orphans>>
+\* what the code does (F5): the DELETED event of an object whose daemon is (still, or -- started from an older view -- again) running is
+\* processed: the memory of the object is forgotten, the daemon goes on; nobody stops it before the final sweep of run_tasks()
+Orphaned == /\ orphans < daemons /\ orphans' = orphans + 1
+            /\ UNCHANGED <<conf, sc, hs, started, ready, rt, watch, busy, rec, daemons, trigger, runner, apis, sfail, cran, lateD>>
+OrphanExits == /\ orphans > 0 /\ daemons > 0 /\ daemons' = daemons - 1 /\ orphans' = orphans - 1
+               /\ UNCHANGED <<conf, sc, hs, started, ready, rt, watch, busy, rec, trigger, runner, apis, sfail, cran, lateD>>
 LateDaemonExits == /\ lateD /\ daemons > 0 /\ daemons' = daemons - 1
-                   /\ UNCHANGED <<conf, sc, hs, started, ready, rt, watch, busy, rec, trigger, runner, apis, sfail, cran, lateD>>
+                   /\ UNCHANGED <<conf, sc, hs, started, ready, rt, watch, busy, rec, trigger, runner, apis, sfail, cran, lateD, orphans>>
 HandlerStarts == HandlerStartsIn(FALSE)
 HandlerEnds == /\ busy > 0 /\ busy' = busy - 1
-               /\ UNCHANGED <<conf, sc, hs, started, ready, rt, watch, rec, daemons, trigger, runner, apis, sfail, cran, lateD>>
+               /\ UNCHANGED <<conf, sc, hs, started, ready, rt, watch, rec, daemons, trigger, runner, apis, sfail, cran, lateD, orphans>>
 \* children end when their parent is being cancelled (the parent awaits them), or when their own subject goes away
 WatchCloses == /\ rt["orch"] \in {"run", "cancelling"} /\ watch > 0 /\ watch' = watch - 1
-               /\ UNCHANGED <<conf, sc, hs, started, ready, rt, busy, rec, daemons, trigger, runner, apis, sfail, cran, lateD>>
+               /\ UNCHANGED <<conf, sc, hs, started, ready, rt, busy, rec, daemons, trigger, runner, apis, sfail, cran, lateD, orphans>>
 Withdraws ==   /\ rt["orch"] = "cancelling" /\ rec /\ rec' = FALSE /\ apis' = apis + 1
-               /\ UNCHANGED <<conf, sc, hs, started, ready, rt, watch, busy, daemons, trigger, runner, sfail, cran, lateD>>
-DaemonExits == /\ daemons > 0 /\ (rt["killer"] = "cancelling" \/ rt["killer"] = "run") /\ daemons' = daemons - 1
-               /\ UNCHANGED <<conf, sc, hs, started, ready, rt, watch, busy, rec, trigger, runner, apis, sfail, cran, lateD>>
-ChildrenGone(t) == (t = "orch" => watch = 0 /\ busy = 0 /\ ~rec) /\ (t = "killer" => (daemons = 0 \/ lateD))
+               /\ UNCHANGED <<conf, sc, hs, started, ready, rt, watch, busy, daemons, trigger, runner, sfail, cran, lateD, orphans>>
+DaemonExits == /\ daemons > orphans /\ (rt["killer"] = "cancelling" \/ rt["killer"] = "run") /\ daemons' = daemons - 1
+               /\ UNCHANGED <<conf, sc, hs, started, ready, rt, watch, busy, rec, trigger, runner, apis, sfail, cran, lateD, orphans>>
+ChildrenGone(t) == (t = "orch" => watch = 0 /\ busy = 0 /\ ~rec) /\ (t = "killer" => (daemons = orphans \/ lateD))
 Unwinds(t) ==
   /\ rt[t] = "cancelling" /\ ChildrenGone(t) /\ rt' = [rt EXCEPT ![t] = "done"]
-  /\ UNCHANGED <<conf, sc, hs, started, ready, watch, busy, rec, daemons, trigger, runner, apis, sfail, cran, lateD>>
+  /\ UNCHANGED <<conf, sc, hs, started, ready, watch, busy, rec, daemons, trigger, runner, apis, sfail, cran, lateD, orphans>>
 \* an essential task fails on its own (an unrecoverable error of an observer's stream, exhausted retries, ...)
 Fails(t) ==
   /\ rt[t] = "run" /\ t \in {"resobs", "nsobs", "poster"} /\ rt' = [rt EXCEPT ![t] = "failed"]
-  /\ UNCHANGED <<conf, sc, hs, started, ready, watch, busy, rec, daemons, trigger, runner, apis, sfail, cran, lateD>>
+  /\ UNCHANGED <<conf, sc, hs, started, ready, watch, busy, rec, daemons, trigger, runner, apis, sfail, cran, lateD, orphans>>
 
 \* ---- the environment and run_tasks() ---------------------------------------------------------------
 StopFlag == /\ trigger = "none" /\ runner = "wait" /\ trigger' = "flag"
-            /\ UNCHANGED <<conf, sc, hs, started, ready, rt, watch, busy, rec, daemons, runner, apis, sfail, cran, lateD>>
+            /\ UNCHANGED <<conf, sc, hs, started, ready, rt, watch, busy, rec, daemons, runner, apis, sfail, cran, lateD, orphans>>
 Cancel ==   /\ trigger = "none" /\ runner = "wait" /\ trigger' = "cancel"
-            /\ UNCHANGED <<conf, sc, hs, started, ready, rt, watch, busy, rec, daemons, runner, apis, sfail, cran, lateD>>
+            /\ UNCHANGED <<conf, sc, hs, started, ready, rt, watch, busy, rec, daemons, runner, apis, sfail, cran, lateD, orphans>>
 \* the first root task has finished (the stop-flag checker, a failed task, the failed startup) or run_tasks() itself is cancelled:
 \* every other root task is cancelled
 RunnerStops ==
   /\ runner = "wait" /\ (trigger # "none" \/ ScEnded \/ \E t \in Roots : Ended(t))
   /\ runner' = "stopping"
   /\ rt' = [t \in Roots |-> IF rt[t] = "run" THEN "cancelling" ELSE IF rt[t] = "gated" THEN "done" ELSE rt[t]]
-  /\ UNCHANGED <<conf, sc, hs, started, ready, watch, busy, rec, daemons, trigger, apis, sfail, cran, lateD>>
+  /\ UNCHANGED <<conf, sc, hs, started, ready, watch, busy, rec, daemons, trigger, apis, sfail, cran, lateD, orphans>>
 Outcome == IF trigger = "cancel" THEN "cancelled"
            ELSE IF sc = "failed" \/ \E t \in Roots : rt[t] = "failed" THEN "raised" ELSE "returned"
 RunnerReturns ==
   /\ runner = "stopping" /\ ScEnded /\ \A t \in Roots : Ended(t)
   /\ runner' = Outcome
-  /\ UNCHANGED <<conf, sc, hs, started, ready, rt, watch, busy, rec, daemons, trigger, apis, sfail, cran, lateD>>
+  /\ UNCHANGED <<conf, sc, hs, started, ready, rt, watch, busy, rec, daemons, trigger, apis, sfail, cran, lateD, orphans>>
 
 Progress == \/ \E h \in DOMAIN hs : \E out \in {"ok", "temp", "perm"} : StartupStep(h, out) \/ CleanupStep(h, out)
             \/ StartupEnds \/ CleanupEnds \/ ScWaitsRoots \/ ScBeginsCleanup \/ ScCancelledInStartup
             \/ GatesOpen \/ \E t \in Roots : Unwinds(t)
             \/ RunnerStops \/ RunnerReturns
-KidsEnd == LateDaemonExits \/ (WatchCloses /\ rt["orch"] = "cancelling") \/ Withdraws \/ (DaemonExits /\ rt["killer"] = "cancelling") \/ HandlerEnds
+KidsEnd == LateDaemonExits \/ OrphanExits \/ (WatchCloses /\ rt["orch"] = "cancelling") \/ Withdraws \/ (DaemonExits /\ rt["killer"] = "cancelling") \/ HandlerEnds
 OpNext == Progress \/ KidsEnd
 Fair == /\ WF_vars(WatchCloses /\ rt["orch"] = "cancelling") /\ WF_vars(Withdraws) /\ WF_vars(HandlerEnds)
         /\ WF_vars(DaemonExits /\ rt["killer"] = "cancelling") /\ WF_vars(LateDaemonExits)
 Optional == \/ \E t \in Roots : Api(t) \/ Fails(t)
             \/ WatchOpens \/ Announce \/ DaemonStarts \/ HandlerStarts \/ (DaemonExits /\ rt["killer"] = "run")
             \/ (WatchCloses /\ rt["orch"] = "run")
-            \/ StopFlag \/ Cancel \/ DaemonStartsLate
+            \/ StopFlag \/ Cancel \/ DaemonStartsLate \/ (Orphaned /\ rt["orch"] \in {"run", "cancelling"})
 Next == OpNext \/ Optional
 Spec == Init0([startup |-> <<>>, cleanup |-> <<>>, peering |-> TRUE]) /\ [][Next]_vars /\ WF_vars(Progress) /\ Fair
 
@@ -153,11 +161,13 @@ Spec == Init0([startup |-> <<>>, cleanup |-> <<>>, peering |-> TRUE]) /\ [][Next
 NoApiBeforeStartup == apis > 0 => started
 ReadyAfterStartup  == ready => started
 FailedStartupNoApi == sfail => (apis = 0 /\ ~ready /\ ~cran)
-CleanupLast == (sc = "cleanup" \/ cran) => ((daemons = 0 \/ lateD) /\ watch = 0 /\ busy = 0 /\ ~rec /\ \A t \in Roots : Ended(t))
+CleanupLast == (sc = "cleanup" \/ cran) => ((daemons = orphans \/ lateD) /\ watch = 0 /\ busy = 0 /\ ~rec /\ \A t \in Roots : Ended(t))
 Family_F29 == lateD /\ daemons > 0 /\ (sc = "cleanup" \/ cran \/ runner \in {"returned", "raised", "cancelled"})
 NoLateDaemon == ~lateD
+Family_F5 == orphans > 0 /\ (sc = "cleanup" \/ cran \/ runner \in {"returned", "raised", "cancelled"})
+NoOrphan == orphans = 0
 Finished == runner \in {"returned", "raised", "cancelled"}
-NothingLingers == Finished => ((daemons = 0 \/ lateD) /\ watch = 0 /\ busy = 0 /\ ~rec /\ ScEnded /\ \A t \in Roots : Ended(t))
+NothingLingers == Finished => ((daemons = orphans \/ lateD) /\ watch = 0 /\ busy = 0 /\ ~rec /\ ScEnded /\ \A t \in Roots : Ended(t))
 ReRaises == (runner = "returned") => (sc = "ok" \/ sc = "cancelled") /\ \A t \in Roots : rt[t] # "failed"
 \* fail-fast: once any essential task has failed or a stop was asked for, the run call returns
 FailFast == ((trigger # "none") \/ sfail \/ \E t \in Roots : rt[t] = "failed") ~> Finished
